@@ -1559,7 +1559,10 @@ LEVEL_TEXT = ('proof (partial). Proved in Lean, for EVERY schedule, every contro
               '(trace inclusion modulo stuttering, subset construction, proved sound: an admitted trace is a sampling '
               'of a model run and inherits every safety theorem, C20_admitted_*_safe). Partial: the theorems are about '
               'the models; bytecode atomicity, real-time sleeping, Ctrl-C inside wait() and the Autoreloader restarting '
-              'the bus from its own callback are outside the models (oracle only).')
+              'the bus from its own callback are outside the models (oracle only). The frequency re-configured at run '
+              'time: proved that the model reads it only in start()\'s first test (stop()/cancel()/the worker are the '
+              'same functions under any frequency, C20Freq.*); the real threads are driven with f0/f1 pseudo-calls, '
+              'oracle only.')
 LEVEL_NOTE = ('Trusted: Lean kernel (propext, Classical.choice, Quot.sound only); the hand models CpModel/Monitor.lean, '
               'BlockWait.lean, ThreadMgr.lean as validated on this run by trace inclusion of the real threads\' '
               'observable traces under harness/c20_sched.py; CPython switching threads only between bytecodes with '
